@@ -124,6 +124,7 @@ package network
 //@ func (*Driver).SendCommandsFromFile [C04]
 //@   requires d.DefaultDesiredPriv != "" && RI(d.Channel.Q) && d.Channel.PromptSearchDepth >= 0 && graphOK(d)
 //@   at call! SendCommandsFromFile#1 assert #commands-run-at-the-default-level old(d.CurrentPriv) == d.DefaultDesiredPriv || acquired == d.DefaultDesiredPriv
+//@   at call! SendCommandsFromFile#1 assert [C13 C04] #the-file-and-the-options-reach-the-generic-driver-unchanged arg0 == f && arg1 === opts
 
 //@ func (*Driver).SendConfigs [C04 C13]
 //@   requires RI(d.Channel.Q) && d.Channel.PromptSearchDepth >= 0 && graphOK(d)
@@ -188,3 +189,7 @@ package network
 //@   at return assert #a-failing-hook-fails-the-open-with-its-own-error nhookErr != nil ==> result == nhookErr
 //@   at call! Close#1 assert #the-channel-is-closed-only-because-the-hook-failed nhookErr != nil && recv == d.Channel
 //@   at return assert #success-means-generic-open-and-hook-passed result == nil ==> nhookErr == nil
+
+//@ func (*Driver).SendConfigsFromFile [C13]
+//@   requires RI(d.Channel.Q) && d.Channel.PromptSearchDepth >= 0 && graphOK(d)
+//@   at call! SendConfigs#1 assert #the-lines-of-the-file-are-sent-as-configs-with-the-operation-options arg0 === c && arg1 === opts
